@@ -37,7 +37,7 @@ def _run(io, handlers, time_budget, prop):
         if not ok:
             # dryoc != python.  The online oracle already compared dryoc with libsodium on the same
             # input: if that passed (no online violation with this output) the two references disagree.
-            if d.get("agrees_with_libsodium", True):
+            if d.get("agrees_with_libsodium", True) and not d.get("sole_reference"):
                 inconc.append("reference disagreement on %s: python=%s dryoc/libsodium=%s input=%s" % (
                     op, want, d.get("out"), {k: v for k, v in d.items() if k not in ("out",)}))
             else:
@@ -158,3 +158,30 @@ def check_c03(io, time_budget=120):
                     return (False, "op %d: pull state k=%s nonce=%s" % (i, pull.k.hex(), pull.nonce.hex()))
         return (True, None)
     return _run(io, {"stream_history": hist}, time_budget, "C03")
+
+
+def check_c13(io, time_budget=120):
+    def box_seed(d):
+        pk, sk = M.box_seed_keypair(_b(d["seed"]))
+        return (d["pk"] == pk.hex() and d["sk"] == sk.hex(), (pk + sk).hex())
+
+    def kx_seed(d):
+        pk, sk = M.kx_seed_keypair(_b(d["seed"]))
+        return (d["pk"] == pk.hex() and d["sk"] == sk.hex(), (pk + sk).hex())
+
+    def sign_seed(d):
+        seed = _b(d["seed"])
+        pk = M.ed25519_public(seed)
+        return (d["pk"] == pk.hex() and d["sk"] == (seed + pk).hex(), (pk + seed + pk).hex())
+
+    def ed2x(d):
+        xpk = M.ed_pk_to_x25519(_b(d["ed_pk"]))
+        xsk = M.ed_seed_to_x25519_sk(_b(d["seed"]))
+        ok = d["x_pk"] == xpk.hex() and d["x_sk"] == xsk.hex() and M.x25519_base(xsk) == xpk
+        return (ok, (xpk + xsk).hex())
+
+    def pwkp(d):
+        sk = M.argon2(_b(d["pw"]), _b(d["salt"]), d["t"], d["m"], 32, 2)
+        pk = M.x25519_base(sk)
+        return (d["pk"] == pk.hex() and d["sk"] == sk.hex(), (pk + sk).hex())
+    return _run(io, {"box_seed": box_seed, "kx_seed": kx_seed, "sign_seed": sign_seed, "ed_to_curve": ed2x, "pw_keypair": pwkp}, time_budget, "C13")
